@@ -203,8 +203,8 @@ pub fn run_sched(cfg: &SchedCfg) -> RunStat {
   let gen_ = hist::begin();
   hist::push(json!({"k":"new","kind": if cfg.rw {"rwlock"} else {"mutex"}}));
   let strat = match cfg.strategy.as_str() {
-    "pct" => Strategy::Pct { d: 3, k: 300 },
-    "pct5" => Strategy::Pct { d: 5, k: 600 },
+    "pct" => Strategy::Pct { d: 3, k: 100 },
+    "pct5" => Strategy::Pct { d: 5, k: 160 },
     _ => Strategy::Random { p: 0.3 },
   };
   let ctl = Ctl::new(cfg.threads, cfg.seed ^ 0x51ed270b, strat);
